@@ -423,6 +423,36 @@ theorem nodup_of_length_eraseDups (l : List Bytes) (h : l.eraseDups.length = l.l
     intro hm
     have := (List.filter_eq_self.mp h4) a hm
     simp at this
+/-- duplicate removal leaves no duplicates (fuelled form) -/
+theorem nodup_eraseDups_aux (n : Nat) : ∀ l : List Bytes, l.length ≤ n → l.eraseDups.Nodup := by
+  induction n with
+  | zero => intro l h; cases l with
+    | nil => simp
+    | cons a as => simp at h
+  | succ n ih =>
+    intro l h
+    cases l with
+    | nil => simp
+    | cons a as =>
+      rw [List.eraseDups_cons, List.nodup_cons]
+      have h1 := List.length_filter_le (fun b => !b == a) as
+      refine ⟨?_, ih (as.filter fun b => !b == a) (by simp at h; omega)⟩
+      intro hm
+      have := (List.mem_filter.mp (List.mem_eraseDups.mp hm)).2
+      simp at this
+
+/-- duplicate removal leaves no duplicates -/
+theorem nodup_eraseDups (l : List Bytes) : l.eraseDups.Nodup := nodup_eraseDups_aux l.length l (Nat.le_refl _)
+
+/-- **the count Set.Add reports on a fresh set is the number of distinct elements named** -/
+theorem setAdd_nil_count (es : List Bytes) : (setAdd [] es).2 = es.eraseDups.length := by
+  have hp : (setAdd [] es).1.Perm es.eraseDups :=
+    (List.perm_ext_iff_of_nodup (nodup_setAdd [] es List.nodup_nil) (nodup_eraseDups es)).mpr fun x => by
+      rw [mem_setAdd, List.mem_eraseDups]; simp
+  have := length_setAdd [] es
+  rw [hp.length_eq] at this
+  simpa using this.symm
+
 /-! ### SUNIONSTORE tail on two operands -/
 
 /-- typed unfolding of the `newOid` primitive (pure) -/
